@@ -1,5 +1,5 @@
 (* C17 - executable model of /repo/src/sc_options.c (with the repairs bb105d5, 5b6f754, ede139e, 69d3f48,
-   5918853, 6404e3e, 5a6ac04), of the ini reader /repo/iniparser/iniparser.c + dictionary.c as far as
+   5918853, 6404e3e, 5a6ac04, bd8c44f; iniparser with cfc9e38), of the ini reader /repo/iniparser/iniparser.c + dictionary.c as far as
    sc_options uses it, and of sc_keyvalue_get_int_check.  Definitions only; proofs are in
    NumProofs.v / IniProofs.v / OptionsProofs.v / GetoptProofs.v.
 
@@ -157,6 +157,9 @@ Fixpoint dict_set (d : dict) (k : str) (v : option str) : dict :=
   end.
 
 (* iniparser_getstring: the key is lowercased (and cut to ASCIILINESZ) before the lookup *)
+(* iniparser_find_entry: the key is there, with or without a value *)
+Definition dict_mem (d : dict) (k : str) : bool := match dict_get d k with Some _ => true | None => false end.
+
 Definition ini_getstring (d : dict) (key : str) : option (option str) := dict_get d (strlwc key).
 
 Inductive line_status :=
@@ -237,8 +240,11 @@ Fixpoint ini_loop (fuel : nat) (rest : list Z) (pre : str) (section : str) (d : 
                   | LEmpty | LComment => ini_loop f rest' [] section d errs
                   | LError => ini_loop f rest' [] section d (errs + 1)
                   | LSection o =>
+                      (* cfc9e38: a heading does not touch a slot that exists (it would erase the value of an entry
+                         of the same name); `errs` is then not assigned either *)
                       let sec := match o with Some x => x | None => strlwc (strstrip section) end in
-                      ini_loop f rest' [] sec (dict_set d sec None) 0
+                      if dict_mem d sec then ini_loop f rest' [] sec d errs
+                      else ini_loop f rest' [] sec (dict_set d sec None) 0
                   | LValue k v =>
                       ini_loop f rest' [] section
                                (dict_set d (firstn LINESZ (section ++ cCOLON :: k)) (Some v)) 0
